@@ -212,6 +212,14 @@ example : find 1 (runF applyOp (RefineEx.ops ++ [.assign 5 1])).hs = some 8 ∧
     find 7 (runF applyOp (RefineEx.ops ++ [.copy 5 7])).hs = some 8 := by decide
 
 /-!
+## closed since the last refresh of this file
+
+No item of the list below was closed; nothing about the MTBDD node store was added since.  (The OTHER reference-counted
+structures of the library now have history theorems of the same kind – "count = number of referrers, nothing freed while
+shared, nothing freed twice": the macro-state cache `Util_Cache_interning` / `Util_Cache_no_leak`, the `SharedCounter` rows
+and `SharedList` nodes of the simulation engine `Util_LtsUtil_SharedCounter_refcount` / `Util_LtsUtil_SharedList_refcount`, the
+copy-on-write heap of the explicit automata C11; they are collected in `Vata/Properties/C20.lean`.)
+
 ## not yet proved
 
 * **"The size it had before" relative to an arbitrary earlier point.**  `C18_all_released` compares with the *initial*
